@@ -780,7 +780,7 @@ func hungLimitOf(c *crashCase) time.Duration {
 		return hungLimit / 2 // long enough for the recursion to reach its bound, or the end of the stack
 	}
 	if c.Src == "chan" {
-		return 8 * time.Second // a handful of evaluation steps
+		return hungLimit * 2 / 5 // a handful of evaluation steps (8 s; longer when a rejection is confirmed)
 	}
 	if c.Src == "deep" || c.Src == "wide" {
 		return 2 * hungLimit // hundreds of thousands of tokens, on a machine that may be busy
